@@ -8,7 +8,7 @@ from common import *
 LEVEL = "model_checking"
 EXPLANATION = ("Bounded model checking (Kani/CBMC) of the real cas_object chunk-header codec and BG4 byte grouping over symbolic inputs; "
                "the `unsafe` pointer arithmetic of bg4_split_together / bg4_regroup_together runs with Kani's memory-safety checks on.")
-BOUNDS = "chunk header: every (scheme, compressed length, uncompressed length) with lengths < 2^24; BG4: every byte string of length 1,2,3,8 (quick) and 13,14,15 (thorough)"
+BOUNDS = "chunk header: every (scheme, compressed length, uncompressed length) with lengths < 2^24; BG4: every byte string of length 1,2,3,8 (quick) and 13-15, 32-35 (thorough)"
 ASSUMPTIONS = ["alloc::fmt::format / core::fmt::write / Backtrace::capture stubbed (error texts are not the subject)",
                "CASChunkHeader is repr(C, packed): its bytes are taken by transmute in the harness (write_chunk_header is private)"]
 OUTSIDE = ["LZ4 and BG4+LZ4 payload codecs (lz4_flex, third party)", "automatic scheme selection's float heuristic",
@@ -26,6 +26,7 @@ KANI = [
     H("hk_cas", "c07::bg4_roundtrip_13", "same, length 13 (residue 1)", unwind=8, tier="thorough", functions=["bg4_*"], bounds="|d| = 13", timeout=1800),
     H("hk_cas", "c07::bg4_roundtrip_14", "same, length 14 (residue 2)", unwind=8, tier="thorough", functions=["bg4_*"], bounds="|d| = 14", timeout=1800),
     H("hk_cas", "c07::bg4_roundtrip_15", "same, length 15 (residue 3)", unwind=8, tier="thorough", functions=["bg4_*"], bounds="|d| = 15", timeout=1800),
+    H("hk_cas", "c07::bg4_roundtrip_32_to_35", "same, lengths 32..35 (all residues)", unwind=12, tier="thorough", functions=["bg4_*"], bounds="|d| in 32..35", timeout=2400, mem_gb=28),
 ]
 
 
